@@ -90,7 +90,7 @@ def batches(ctx):
     b.oracle = oracle_ord
     yield b
 
-    uc = [dict(c03.rand_case(rng, 5, 3, 4), costs=any_costs()) for _ in range(350 if quick else 3000)]
+    uc = [dict(c03.rand_case(rng, 6, 3, 4, chain=0.4), costs=any_costs()) for _ in range(3000 if quick else 20000)]
     b = c03.make_batch("uspfs_anycost", uc, "unordered solvers on arbitrary cost vectors incl. sloss=0")
 
     def oracle_un(c, r):
@@ -159,3 +159,34 @@ def extra(ctx):
             ctx.findings.append(Finding("validity_sample", case, r, "(validity predicate)", False, why))
             bad += 1
     ctx.notes.append(f"validity predicates evaluated on {n} further random inputs (arbitrary costs), {bad} failures")
+
+
+def search(ctx):
+    """broken tie without a concrete invalid solution: validity predicates on fresh, larger inputs"""
+    import time
+    rng = ctx.rng
+    t0 = time.time()
+    budget = 150 if ctx.quick() else 900
+    n = 0
+    while time.time() - t0 < budget:
+        c = R.rand_costs(rng, coherent_only=False, hi=3)
+        if n % 2 == 0:
+            case = dict(c03.rand_case(rng, 7, 4, 4, chain=0.6), costs=c)
+            r = c03.impl(case)
+            for k in ("ext", "base"):
+                for sol in (r.get(k) or []) + r.get(k + "_any", []):
+                    ok, why = LB.valid_unordered(case["S"], case["O"], sol)
+                    if not ok:
+                        return Finding("search", case, r, "(validity predicate)", False, f"{k}: {why}")
+        else:
+            case = dict(c02.rand_case(rng, 5, 3, 3), costs=c)
+            r = c02.impl(case)
+            for k in ("ext", "base"):
+                for sol in (r.get(k) or []) + r.get(k + "_any", []):
+                    ok, why = LB.valid_ordered(case["S"], case["O"], sol)
+                    if not ok:
+                        return Finding("search", case, r, "(validity predicate)", False, f"{k}: {why}")
+        n += 1
+        ctx.evaluations += 1
+    ctx.notes.append(f"failing-input search: {n} fresh inputs, no invalid solution")
+    return None
